@@ -23,6 +23,10 @@ def case_list(seed, count, tier):
         op = rnd.choice(["enum", "enum", "partial", "min", "max"])
         var = rnd.randrange(len(model["idx"]))
         cases.append({"kind": "random", "model": model, "cfg": cfg, "op": op, "var": var, "stop": rnd.randint(1, 4)})
+    # searches that use the whole choice-point stack, at the heights next to the limits of the 8-bit stack pointer:
+    # both modes must agree, including on the error raised when the stack is full
+    for h, n in ((16, 14), (16, 15), (16, 17), (128, 127), (128, 130), (254, 252), (254, 253), (254, 260)):
+        cases.append({"kind": "deep", "height": h, "n": n})
     for name in (["queens-6", "golomb-5", "magic_sequence-8", "bibd-6", "schur-8", "qg5-5", "knapsack", "tsp-6"]
                  if tier == "quick" else
                  ["queens-6", "queens-8", "golomb-5", "golomb-6", "magic_sequence-8", "magic_sequence-20", "bibd-6",
@@ -161,12 +165,26 @@ def run_trace(task):
     hlog = []
     problem_changes = []
     for ci, c in enumerate(cases):
-        progress.mark({"trace_case": ci, "case": c if c["kind"] == "shipped" else {"model": c["model"],
-                                                                                   "cfg": c["cfg"], "op": c["op"]}})
+        progress.mark({"trace_case": ci, "case": c if c["kind"] in ("shipped", "deep") else {
+            "model": c["model"], "cfg": c["cfg"], "op": c["op"]}})
         if hrnd is not None:
             for _ in range(hrnd.randint(0, 3)):
                 _history_step(hrnd, hlog)
         try:
+            if c["kind"] == "deep":
+                n = c["n"]
+                dm = {"doms": [[0, 1]] * n, "idx": list(range(n)), "off": [0] * n,
+                      "props": [[list(range(n)), "affine_leq", [1] * n + [1]]]}
+                s = M.build_solver(dm, {"calg": "bc", "vh": "first", "dh": "min", "height": c["height"]})
+                sols, err = [], None
+                try:
+                    for sol in s.solve():
+                        sols.append([int(x) for x in sol])
+                except Exception as e:
+                    err = "%s: %s" % (type(e).__name__, str(e)[:80])
+                traces.append({"solutions": [sum(x) * 1000 + (x.index(1) if 1 in x else -1) for x in sols],
+                               "stats": stats_list(s), "error": err})
+                continue
             if c["kind"] == "random":
                 p = M.build_problem(c["model"])
                 kw, op, obj = None, c["op"], c["var"]
